@@ -24,6 +24,10 @@ type vfHdrCase struct {
 	Brand, Model, Firmware             string
 	Trailing                           []byte `json:"trailing"` // bytes that follow the header (frames)
 	Chunks                             []int  `json:"chunks"`   // sizes of the successive socket reads (cycled)
+	// NoFirmware / NoSerial: the daemon could not read that value from the camera and leaves the key out (or
+	// sends it empty): the description then says "" / 0 for it, nothing invented
+	NoFirmware int `json:"no_firmware,omitempty"` // 1: key absent, 2: key present with a null value
+	NoSerial   bool `json:"no_serial,omitempty"`
 }
 
 // vfChunkReader hands out at most the next chunk size per Read, like a socket delivering segments.
@@ -126,6 +130,13 @@ func vfGenHdr(t *rapid.T) vfHdrCase {
 		c.Trailing = append([]byte(rapid.SampledFrom([]string{"\n", "\n\n", " \n", "clear", "ResX: 1\n\n", "a: b\n"}).Draw(t, "tricky")), c.Trailing...)
 	}
 	c.Chunks = rapid.SliceOfN(rapid.SampledFrom([]int{1, 1, 2, 3, 5, 7, 16, 64, 4096, 100000}), 0, 6).Draw(t, "chunks")
+	if rapid.IntRange(0, 9).Draw(t, "missing") == 0 {
+		c.NoFirmware = rapid.IntRange(1, 2).Draw(t, "nofirmware")
+		c.Firmware = ""
+		if rapid.Bool().Draw(t, "noserial") {
+			c.NoSerial, c.Serial = true, 0
+		}
+	}
 	return c
 }
 
@@ -134,6 +145,15 @@ func vfEncode(c vfHdrCase) ([]byte, error) {
 	m := map[string]interface{}{
 		XResolution: c.ResX, YResolution: c.ResY, FrameSize: c.FrameSize, Model: c.Model, Brand: c.Brand,
 		FPS: c.FPS, Serial: c.Serial, Firmware: c.Firmware,
+	}
+	switch c.NoFirmware {
+	case 1:
+		delete(m, Firmware)
+	case 2:
+		m[Firmware] = nil
+	}
+	if c.NoSerial {
+		delete(m, Serial)
 	}
 	b, err := yaml.Marshal(m)
 	if err != nil {
